@@ -42,7 +42,7 @@ def _charset(op, av):
                 s.add(chr(b))
             elif a == "RANGE":
                 s.update(chr(c) for c in range(b[0], b[1] + 1))
-            elif a == "CATEGORY" and b == "CATEGORY_DIGIT":
+            elif a == "CATEGORY" and str(b) == "CATEGORY_DIGIT":
                 s.update(DIGITS)
             else:
                 return None
